@@ -336,3 +336,27 @@ func vfThresholdRelation(all, got []vfHit, thr float32, k int) *vfViolation {
 	}
 	return nil
 }
+
+// vfSameAnswer executes an old search object and a newly built one with the same parameters on the same
+// index state and describes the first difference ("" if none): both succeed or both fail, same number of
+// hits, the same score at every rank (ids may differ inside a tie).
+func vfSameAnswer(old, fresh VectorSearch) string {
+	a, errA := old.Execute()
+	b, errB := fresh.Execute()
+	if (errA == nil) != (errB == nil) {
+		return fmt.Sprintf("the old object reports error %v, a new one %v", errA, errB)
+	}
+	if errA != nil {
+		return ""
+	}
+	ha, hb := vfHitsOf(a), vfHitsOf(b)
+	if len(ha) != len(hb) {
+		return fmt.Sprintf("the old object returns %d results, a new one with the same parameters %d", len(ha), len(hb))
+	}
+	for j := range ha {
+		if ha[j].Score != hb[j].Score {
+			return fmt.Sprintf("rank %d: the old object returns id %d score %v, a new one with the same parameters id %d score %v", j, ha[j].ID, ha[j].Score, hb[j].ID, hb[j].Score)
+		}
+	}
+	return ""
+}
